@@ -581,6 +581,21 @@ func (w *Walker) evalCall(call *ast.CallExpr, st *State, nres int) []callRes {
 		var res []*Term
 		if f, ok := obj.(*types.Func); ok {
 			id = w.A.extID(f)
+			// a method promoted from an embedded interface is named by the interface it is called on ("Block"), not by
+			// the one that happens to declare it
+			if sel, isSel := ast.Unparen(call.Fun).(*ast.SelectorExpr); isSel && strings.HasPrefix(id, "if:") {
+				declared := ""
+				if r := f.Type().(*types.Signature).Recv(); r != nil {
+					declared = namedName(r.Type())
+				}
+				// (only for a private interface: the public ones are the roles the rules are written in, e.g.
+				// ConsensusMessage.ViewNumber called on a ConsensusPayload)
+				if sl := w.info.Selections[sel]; declared != "" && !ast.IsExported(declared) && sl != nil && sl.Kind() == types.MethodVal && types.IsInterface(sl.Recv()) {
+					if tn, pp := namedName(sl.Recv()), namedPkgPath(sl.Recv()); tn != "" && (pp == modPath || strings.HasPrefix(pp, modPath+"/")) {
+						id = "if:" + tn + "." + f.Name()
+					}
+				}
+			}
 			res = w.extResult(id, f, recvs[i], args[i], nres, s)
 		} else {
 			if w.Fn.Pkg.PkgPath == modPath {
@@ -1357,6 +1372,24 @@ func (w *Walker) inlineCallMode(fn *FuncInfo, recv *Term, args []*Term, st *Stat
 		if sig := fn.Obj.Type().(*types.Signature); sig.Results().Len() >= 2 {
 			useful = true // several results decided together (a lookup and its "found"): how they hang together is the point
 		}
+		// an accessor with a guard ("nil if watch-only, else the own slot"): every result is a piece of state or nil
+		if len(out) >= 1 && len(out) <= 4 && stmtCount(fn.Decl.Body) >= 2 {
+			state := true
+			for _, o := range out {
+				if len(o.ts) != 1 || o.ts[0] == nil {
+					state = false
+					continue
+				}
+				switch o.ts[0].K {
+				case KIndex, KField, KNil:
+				default:
+					state = false
+				}
+			}
+			if state {
+				useful = true
+			}
+		}
 		for _, o := range out {
 			for _, t := range o.ts {
 				if t != nil && (t.K == KCount || t.K == KExists) {
@@ -1372,10 +1405,21 @@ func (w *Walker) inlineCallMode(fn *FuncInfo, recv *Term, args []*Term, st *Stat
 			}
 		}
 		if !useful || len(out) > 6 {
-			if w.A.noPureInline == nil {
-				w.A.noPureInline = map[*FuncInfo]bool{}
+			// remember the verdict only where it cannot depend on the arguments (a result that may be a piece of state
+			// for one caller and opaque for another is tried again)
+			cache := true
+			if sig := fn.Obj.Type().(*types.Signature); sig.Results().Len() == 1 && len(out) <= 6 {
+				switch sig.Results().At(0).Type().Underlying().(type) {
+				case *types.Interface, *types.Pointer, *types.Slice, *types.Map:
+					cache = false
+				}
 			}
-			w.A.noPureInline[fn] = true
+			if cache {
+				if w.A.noPureInline == nil {
+					w.A.noPureInline = map[*FuncInfo]bool{}
+				}
+				w.A.noPureInline[fn] = true
+			}
 			return nil, false
 		}
 	}
